@@ -307,3 +307,78 @@ func VerifH_C16_api_name_heap_capacity() {
 	vrt.Covered("failing-call-compared")
 	_ = f.Close()
 }
+
+// a refused attribute write on a dataset opened in a session (its header cannot grow: a neighbour follows) leaves
+// nothing behind: later calls on the same handle behave as if it had not been made, and the file holds the model
+func VerifH_C16_api_session_refused_attr() {
+	fw, err := CreateForWrite("c16r.h5", CreateTruncate, WithSuperblockVersion([]uint8{0, 2, 3}[vrt.Choice(3)]))
+	vrt.AssertNoErr(err, "create-ok")
+	a, err := fw.CreateDataset("/a", Int32, []uint64{1})
+	vrt.AssertNoErr(err, "create-a-ok")
+	vrt.AssertNoErr(a.Write([]int32{1}), "write-a-ok")
+	model := map[string]int32{}
+	for i, n := range []string{"p0", "p1", "p2"} {
+		vrt.AssertNoErr(a.WriteAttribute(n, int32(i)), "attr-ok")
+		model[n] = int32(i)
+	}
+	b, err := fw.CreateDataset("/b", Int32, []uint64{1})
+	vrt.AssertNoErr(err, "create-b-ok")
+	w := vrt.I32()
+	vrt.AssertNoErr(b.Write([]int32{w}), "write-b-ok")
+	vrt.AssertNoErr(fw.Close(), "close-ok")
+
+	s, err := OpenForWrite("c16r.h5", OpenReadWrite)
+	vrt.AssertNoErr(err, "session-open-ok")
+	d, err := s.OpenDataset("/a")
+	vrt.AssertNoErr(err, "open-dataset-ok")
+	// a new attribute: the header would have to grow over /b
+	ferr := d.WriteAttribute("p10", vrt.I32())
+	vrt.Assert(ferr != nil, "invalid-call-returns-error")
+	// later calls: a same-size replacement fits and must work; a delete of an absent name fails; a second new name is refused again
+	v := vrt.I32()
+	switch vrt.Choice(3) {
+	case 0:
+		vrt.AssertNoErr(d.WriteAttribute("p2", v), "later-write-ok")
+		model["p2"] = v
+	case 1:
+		vrt.Assert(d.DeleteAttribute("p10") != nil, "failed-call-left-no-object")
+	default:
+		if d.WriteAttribute("p8", "str123") == nil {
+			// accepted (e.g. by moving the attributes to dense storage): then exactly this one is new
+			model["p8"] = 0
+		}
+	}
+	vrt.AssertNoErr(s.Close(), "close-ok")
+
+	f, err := Open("c16r.h5")
+	vrt.AssertNoErr(err, "reopen-ok")
+	da := verifFindDataset(f, "/a")
+	vrt.Assert(da != nil, "a-present")
+	if da != nil {
+		list, err := da.ListAttributes()
+		vrt.AssertNoErr(err, "a-attr-read-ok")
+		vrt.Assert(len(list) == len(model), "a-attr-count-unchanged")
+		for _, n := range list {
+			_, ok := model[n]
+			vrt.Assert(ok, "failed-call-left-no-object")
+		}
+		for n, want := range model {
+			if n == "p8" {
+				continue
+			}
+			got, err := da.ReadAttribute(n)
+			vrt.AssertNoErr(err, "a-attr-read-ok")
+			gi, ok := got.(int32)
+			vrt.Assert(ok && gi == want, "a-attr-unchanged")
+		}
+	}
+	db := verifFindDataset(f, "/b")
+	vrt.Assert(db != nil, "b-present")
+	if db != nil {
+		got, err := db.Read()
+		vrt.AssertNoErr(err, "b-read-ok")
+		vrt.Assert(len(got) == 1 && got[0] == float64(w), "b-data")
+	}
+	vrt.Covered("failing-call-compared")
+	_ = f.Close()
+}
